@@ -61,6 +61,16 @@ CLAIMS = {
         design_ref="DESIGN.md section 3, C13",
         technique="static analysis: lockset / publication-idiom rules, cache-key agreement and coverage over abstractly evaluated calculator ranges",
     ),
+    "C17": dict(
+        text=("Shape and arithmetic clauses only - agreement of values with the standard library is a differential claim and NOT decided. (R17.1) the pattern text behind each of the 15 built-in ISO / "
+              "round-trip accessors (folded from the accessor or the lazily built implementation it returns) tokenises - quotes, escapes, letter runs, ';F'/';f' fraction forms - to exactly the "
+              "ISO-8601 extended shape (uuuu-MM-dd, 24-hour HH:mm:ss, 'T', optional ;FFFFFFFFF or fixed f digits, 'Z' for instants), the offset resources are sign + HH[:mm[:ss]] combined long/medium/"
+              "short by the zero-seconds predicates, and the tables give u/H/m/s fixed-width numeric handlers (count == max_count => exactly that many digits written and read); (R17.2) no float "
+              "arithmetic on unbounded quantities and no flooring operator on possibly negative quantities in the text layer's getters and digit accumulators; (R17.3) zero-padded specs only on "
+              "non-negative operands ('-' + 4 digits for negative years); (R17.4) instants are rendered through in_utc() and parsed by reading the local fields as UTC."),
+        design_ref="DESIGN.md section 3, C17",
+        technique="static analysis: pattern-language tokeniser over folded pattern constants compared with the ISO-8601 shape, handler-table agreement, numeric-discipline and interval rules",
+    ),
     "C18": dict(
         text=("Static rules, exhaustive over an abstract order/line domain: (R18.1) DateInterval `date in`, `interval in`, `&` and `|` are abstractly evaluated by the interpreter on every weak "
               "ordering of the end points (and the probe), twice - with the packed date order equal to and reversed against the calendar order - and compared with set semantics; for the union the "
@@ -157,6 +167,18 @@ CLAIMS = {
               "paths, not operation sequences as values nor fairness under contention."),
         design_ref="DESIGN.md section 3, C19",
         technique="static analysis: lock-region re-entrancy and lockset rules over the resolved call graph + term evaluation of method effects",
+    ),
+    "C07": dict(
+        text=("Structural clauses only - the round trip of values over (pattern, culture, value) is NOT decided. (R07.1) lock-step: path-wise walk of every pattern-character handler (table rows, "
+              "factory closures, lambdas; helper effects summarised to a fixpoint): on every path format and parse contributions are registered together, or none, or a parse action that never touches "
+              "the cursor; (R07.2) every numeric table row is executed abstractly: its parse action stores exactly the declared [min, max] into one bucket field, that field is the one the row's getter "
+              "reads, max_count digits can represent max, sibling parsers bind a letter to the same field flag; (R07.3) fraction handlers parse and format with the same (count, scale); (R07.4) "
+              "composite patterns pair patterns[i] with format_predicates[i]; (R07.5) inside the number formatters every zero-padded spec has a non-negative operand under the formatter's precondition "
+              "(interval interpretation with inductive loop bounds), and every format action of every row calls a formatter inside its precondition (abstract execution of the format actions; rows "
+              "whose getter range is relational are listed as not decided); (R07.6) shortcuts keep configuration: the ISO-only fast path is guarded by calendar == ISO and the culture's cached default "
+              "parser is used only under a test of every parameter the explicit parser receives."),
+        design_ref="DESIGN.md section 3, C07",
+        technique="static analysis: path-wise effect summaries (lock-step), closure-aware abstract execution of handler-table rows, interval interpretation of the number formatters, guard-coverage rules",
     ),
     "C08": dict(
         text=("Static rules over the text layer (pyoda_time/text): (R08.1) parse time - for every parse / parse_partial entry the raising constructs located in the text layer (explicit raises, subscripts, "
